@@ -93,4 +93,8 @@ def holdsC14Product2 (b1 b2 out : List (List Rat)) : Option String := c14Product
 def holdsC14Product3 (b1 b2 out : List (List (List Rat))) : Option String :=
   c14ProductRows b1 b2 out "product-"
 
+/-- A non-finite entry (NaN, ±∞) in a returned space-time batch (or in a factor) is not the time /
+    coordinate of any stored point: the batch is not a product / pairing of stored batches. -/
+def c14NotFinite (what : String) : Option String := some (what ++ "-entry-not-finite")
+
 end Jinns.Holds
